@@ -3,7 +3,7 @@
    and ExtrOcamlString (ascii -> char, string -> char list).  No Extract Constant.
    nat, N, positive stay the extracted inductive types. *)
 From Coq Require Extraction ExtrOcamlBasic ExtrOcamlString.
-From FV Require Import Scope Engine SplitLine Text Reader Detect Include One.
+From FV Require Import Scope Engine SplitLine Text Reader Detect Include One Expr.
 Extraction Language OCaml.
 Cd "../ocaml/extracted".
 
@@ -11,4 +11,5 @@ Separate Extraction Engine.program_new Engine.est0 Engine.shape Engine.mkTable E
   Engine.mkBspec Engine.mkItem Engine.mkInfo Scope.depth Engine.yield
   SplitLine.splitquote SplitLine.splitparen Reader.read_source Reader.rst0 Reader.next_item Reader.put_item
   Text.extract_label Text.extract_construct_name Detect.detect_free Include.aread Include.mkArdr
-  One.fill One.oshape One.flattens One.mkOItem One.mkOBlock.
+  One.fill One.oshape One.flattens One.mkOItem One.mkOBlock
+  Expr.parse Expr.std_spec Expr.render Expr.conforming Expr.defop_ok.
